@@ -201,6 +201,9 @@ def strhex2float(x, signed=True, n_word=None, n_frac=None, return_sizes=False):
         return val
 
 def str2num(x, signed=True, n_word=None, n_frac=None, base=10, return_sizes=False):
+    if isinstance(x, np.ndarray):
+        x = x.tolist()      # (bin() / hex() of a 2-dimensional Fxp return a list of arrays of strings)
+
     if isinstance(x, (list, tuple)):
         _signed_max = False
         _n_word_max = None
